@@ -754,7 +754,7 @@ def stream_exhaustive(R):
 
 
 def stream_random(R):
-    n = R.pick(6000, 100000)
+    n = R.pick(6000, 80000)
     cases = []
     for i in range(n):
         cases.append(rand_case(R.subrng('rand', i), big=(i % 3 == 0)))
@@ -770,7 +770,7 @@ def stream_find_handlers(R):
     """Hub._find_handlers alone on random subscription tables: who, most specific class, filter, priority order, ties"""
     from glue.core.hub import Hub
     import functools
-    n = R.pick(1500, 12000)
+    n = R.pick(1500, 8000)
     lines, expect, keys = [], [], []
     bad = 0
     for i in range(n):
